@@ -70,7 +70,7 @@ type RelTx struct {
 	Vid   int
 	Votes *relayertypes.Votes
 	Msg   sdk.Msg // the message itself (voted messages): a withheld vote is submitted later, unchanged
-	BEv   string // bridge-trace event (hashes | pubkey | deposits | process | replace | finalize | approve | other)
+	BEv   string  // bridge-trace event (hashes | pubkey | deposits | process | replace | finalize | approve | other)
 	BF    Ev
 }
 
